@@ -51,6 +51,24 @@ def runNode (c : Cfg) (fp : Bool) : Option Result :=
     | (st3, .justifs _) => (match processJustifications c st3 [badJ] with | (_, .result r) => r | _ => none)
     | _ => none
 
+/-- All five dealers honest: the broadcast deal bundles. -/
+def exDealsHonest : List DealBundle :=
+  [dealOf (ex2 true), dealOf (ex5 true), dealOf (ex8 true), dealOf (ex11 true), dealOf (ex14 true)]
+
+/-- One node through the all-honest run: it must emit no response and finish in `ProcessResponses`. -/
+def runNodeHonest (c : Cfg) : Option Result :=
+  match processDeals c (stAfterDeals c) exDealsHonest with
+  | .ok (st2, none) => (match processResponses c st2 [] with | (_, .result r) => r | _ => none)
+  | _ => none
+
+/-- Two nodes have the same public configuration. -/
+structure SamePublicCfg (cA cB : Cfg) : Prop where
+  q : cA.q = cB.q
+  old : cA.oldNodes = cB.oldNodes
+  new : cA.newNodes = cB.newNodes
+  thr : cA.threshold = cB.threshold
+  nonce : cA.nonce = cB.nonce
+
 /-! ### what is a function of public data -/
 
 theorem all_congr_mem {α : Type} (l : List α) (f g : α → Bool) (h : ∀ a ∈ l, f a = g a) : l.all f = l.all g := by
